@@ -30,6 +30,7 @@ type kaMonitor struct {
 	hb      time.Duration
 	slack   time.Duration
 	lastIn  time.Time
+	lastOut time.Time // last engine write of this logged-on period
 	needBy  time.Time // a write is required by then (zero: no requirement, test request pending)
 	pending bool      // engine has a TestRequest outstanding
 	trAt    time.Time
@@ -43,6 +44,7 @@ type kaMonitor struct {
 
 func (m *kaMonitor) start(at time.Time) {
 	m.lastIn = at
+	m.lastOut = at
 	m.needBy = at.Add(m.hb + m.slack)
 }
 
@@ -51,6 +53,14 @@ func (m *kaMonitor) onEvent(e kaEvent) {
 		if !m.needBy.IsZero() && e.at.After(m.needBy) {
 			m.heartbeatMissing(e.at)
 		}
+		if e.typ == "0" && e.id == "" && !m.lastOut.IsZero() {
+			// "when nothing has been sent for the heartbeat interval a Heartbeat is sent": a Heartbeat that
+			// answers no TestRequest is justified only by an interval without any send
+			if idle := e.at.Sub(m.lastOut); idle < m.hb-m.slack {
+				m.env.Violate("C20/heartbeat-early", "Heartbeat written only %v after the previous send, interval %v", idle, m.hb)
+			}
+		}
+		m.lastOut = e.at
 		if e.typ == "5" {
 			// The engine logs out for a reason of its own (session-level reaction to what the peer
 			// sent); ending the connection is then not a keep-alive matter.
@@ -181,6 +191,8 @@ func runC20(env *Env, tier string) {
 	m := &kaMonitor{env: env, hb: time.Duration(hb) * time.Second}
 	m.slack = m.hb/10 + 10*time.Millisecond
 	m.start(time.Now())
+	m.lastOut = lg.At // the engine's own Logon is its last send so far (an initiator sent it before the peer answered)
+	m.needBy = lg.At.Add(m.hb + m.slack)
 	sentN, recvN := len(p.Sent), len(p.Recv)
 	appCalls := 0
 
